@@ -999,8 +999,10 @@ def build_layers(modname):
             if late:
                 owner.append(layer)
         else:
+            # (pyname: the name the object shows to the runner; two layer
+            # objects may share it, the world keeps its own keys)
             layer = (FalsyInstLayer if ls.get('falsy') else InstLayer)(
-                name, modname, bases)
+                ls.get('pyname') or name, modname, bases)
             for h in hooks:
                 if late and h in per_test:
                     continue
